@@ -55,7 +55,14 @@ def strategy(tier):
     vanished = st.fixed_dictionaries({
         'vanished_host': st.just(True), 'kind': st.just('p_remote'), 'answers': st.integers(0, 3), 'more': st.integers(0, 2), 'ctrl': st.sampled_from(['rst', 'fin']),
         'pipe': st.sampled_from(['default', 'supplied']), 'consumer': st.sampled_from(['late', 'early']), 'term_timeout': st.sampled_from([0, 0.3, 1])})
-    return st.one_of(_child_strategy(), _child_strategy(), _child_strategy(), fwd, unp, unp2, forced, vanished)
+    # SIGKILL from outside while the child is blocked half-way through writing a result far larger than the pipe buffer (nobody is reading
+    # yet): the stream must still end as a prefix - the truncated message is not a value and not an error (round-4 seed C06-m8)
+    midsend = st.fixed_dictionaries({
+        'kind': st.just('p_process'), 'scenario': st.just('persist'),
+        'items': st.builds(lambda a, b: a + ['HUGE'] + b, st.lists(st.sampled_from([1, 2, ['T', 5]]), max_size=3), st.lists(st.sampled_from([3]), max_size=1)),
+        'close': st.booleans(), 'pipe': st.sampled_from(['default', 'supplied']), 'consumer': st.just('late'),
+        'inject': st.just({'mode': 'kill_external', 'sig': 'SIGKILL'}), 'settle': st.sampled_from([0.3, 0.6])})
+    return st.one_of(_child_strategy(), _child_strategy(), _child_strategy(), fwd, unp, unp2, forced, vanished, midsend)
 
 
 def _child_strategy():
@@ -260,6 +267,8 @@ def run_case(case, ctx):
         c['settle'] = 0.4
         c['term'] = {'timeout': case.get('term_timeout', 0.3), 'force': True}
         out.label('forced_terminate_of_stuck_child')
+    elif mode == 'kill_external':
+        out.label('killed_while_blocked_sending_huge_result')
     elif mode == 'none':
         c['close'] = True     # own end: close and wait
     if mode in ('terminate', 'kill'):
